@@ -1,11 +1,80 @@
 (* C16 — Packet ciphers invert exactly at every length and interoperate with standard CFB.
    This file holds only the property theorems; each is closed by an exact lemma and
-   followed by Print Assumptions. *)
+   followed by Print Assumptions.
+
+   Quantification: E is ANY function on byte lists (the block cipher under any key), iv any
+   IV at least one block long, msg of ANY length, and the scratch buffers (encbuf / decbuf
+   of the cryptor) in ANY state left behind by earlier calls.
+   supported bsz := bsz = 8 \/ bsz = 16 (the two code paths encrypt8/16, decrypt8/16). *)
 From Coq Require Import NArith List Bool Arith.
 From FV Require Import C16.Model C16.Proofs.
 Import ListNotations.
 
-(* stream cipher (salsa20): for ANY keystream, decrypting an encrypted message returns it *)
+(* "the ciphertext is byte-identical to standard CFB mode keyed with the same key and the
+   first block of the IV": the unrolled code (stride, fall-through tail, byte-wise remainder)
+   computes textbook CFB, whatever the scratch buffer held before. *)
+Theorem c16_is_cfb : forall bsz E iv msg scratch,
+  supported bsz -> bsz <= length iv -> bsz <= length scratch ->
+  exists scratch',
+    encrypt bsz E iv (mkst msg scratch) = Some (mkst (cfb_enc bsz E (firstn bsz iv) msg) scratch')
+    /\ length scratch' = length scratch.
+Proof. exact encrypt_supported. Qed.
+Print Assumptions c16_is_cfb.
+
+(* the same for decryption (tbl/next alternation over the 2-block scratch buffer) *)
+Theorem c16_decrypt_is_cfb : forall bsz E iv ct scratch,
+  supported bsz -> bsz <= length iv -> 2 * bsz <= length scratch ->
+  exists scratch',
+    decrypt bsz E iv (mkst ct scratch) = Some (mkst (cfb_dec bsz E (firstn bsz iv) ct) scratch')
+    /\ length scratch' = length scratch.
+Proof. exact decrypt_supported. Qed.
+Print Assumptions c16_decrypt_is_cfb.
+
+(* "decrypting an encrypted message with an equally keyed instance returns the original
+   bytes with unchanged length" — every length, any state of either instance's scratch *)
+Theorem c16_roundtrip : forall bsz E iv msg enc_scratch dec_scratch,
+  supported bsz -> bsz <= length iv -> bsz <= length enc_scratch -> 2 * bsz <= length dec_scratch ->
+  exists s1 s2,
+    encrypt bsz E iv (mkst msg enc_scratch) = Some s1 /\
+    decrypt bsz E iv (mkst (data s1) dec_scratch) = Some s2 /\
+    data s2 = msg /\ length (data s1) = length msg.
+Proof. exact roundtrip_supported. Qed.
+Print Assumptions c16_roundtrip.
+
+(* "with unchanged length" for both directions on arbitrary input *)
+Theorem c16_length : forall bsz E iv msg enc_scratch dec_scratch,
+  supported bsz -> bsz <= length iv -> bsz <= length enc_scratch -> 2 * bsz <= length dec_scratch ->
+  exists s1 s2,
+    encrypt bsz E iv (mkst msg enc_scratch) = Some s1 /\
+    decrypt bsz E iv (mkst msg dec_scratch) = Some s2 /\
+    length (data s1) = length msg /\ length (data s2) = length msg.
+Proof. exact length_supported. Qed.
+Print Assumptions c16_length.
+
+(* "every message is processed independently of the ones before it": for ALL sequences of
+   Encrypt / Decrypt calls on one instance, started in any scratch state, the i-th returned
+   byte string is a function of (E, iv, i-th message) alone, and no call panics *)
+Theorem c16_stateless : forall bsz E iv ops c,
+  supported bsz -> bsz <= length iv -> cr_ok bsz c ->
+  exists c', crun bsz E iv c ops = Some (map (cfb_op bsz E iv) ops, c') /\ cr_ok bsz c'.
+Proof. intros bsz E iv ops c. exact (crun_spec bsz E iv ops c). Qed.
+Print Assumptions c16_stateless.
+
+(* "so packets can be decrypted in any order and after losses": the packets ms are encrypted
+   in order by one instance; ANY list of indices sel (permutation, sub-list, repetitions) of
+   the ciphertexts fed to an equally keyed instance in any state yields exactly the selected
+   plaintexts *)
+Theorem c16_any_order : forall bsz E iv (ms : list (list N)) (sel : list nat) sender receiver,
+  supported bsz -> bsz <= length iv -> cr_ok bsz sender -> cr_ok bsz receiver ->
+  exists cts sender' pts receiver',
+    crun bsz E iv sender (map Enc ms) = Some (cts, sender') /\
+    crun bsz E iv receiver (map (fun j => Dec (nth j cts [])) sel) = Some (pts, receiver') /\
+    pts = map (fun j => nth j ms []) sel.
+Proof. exact any_order. Qed.
+Print Assumptions c16_any_order.
+
+(* stream cipher (salsa20): for ANY keystream, decrypting an encrypted message returns it,
+   length unchanged; each call is a function of the message alone (no instance state) *)
 Theorem c16_stream_involution : forall (ks : nat -> N) (msg : list N),
   stream_decrypt ks (stream_encrypt ks msg) = msg /\ length (stream_encrypt ks msg) = length msg.
 Proof. intros ks msg; split; [exact (stream_involution ks msg) | exact (stream_from_length ks msg 0)]. Qed.
@@ -15,3 +84,24 @@ Print Assumptions c16_stream_involution.
 Theorem c16_none : forall msg : list N, none_encrypt msg = msg /\ none_decrypt (none_encrypt msg) = msg.
 Proof. intros msg; split; reflexivity. Qed.
 Print Assumptions c16_none.
+
+(* non-vacuity: a concrete block function, a 20-byte IV, a 150-byte message (8-byte blocks:
+   two strides + 2 tail blocks + 6 remainder bytes; 16-byte blocks: one stride + 1 tail
+   block + 6 bytes), dirty scratch buffers; hypotheses hold and the model computes *)
+Definition ex_E (b : list N) : list N := map (fun x => (7 * x + 3) mod 256)%N (rev b).
+Definition ex_iv : list N := map N.of_nat (seq 1 20).
+Definition ex_msg : list N := map (fun i => N.of_nat (i * i mod 251)) (seq 0 150).
+Definition ex_scratch : list N := map N.of_nat (seq 100 33).
+Example c16_example :
+  supported 8 /\ supported 16 /\ 16 <= length ex_iv /\ 2 * 16 <= length ex_scratch /\
+  option_map data (encrypt 8 ex_E ex_iv (mkst ex_msg ex_scratch)) = Some (cfb_enc 8 ex_E (firstn 8 ex_iv) ex_msg) /\
+  option_map data (encrypt 16 ex_E ex_iv (mkst ex_msg ex_scratch)) = Some (cfb_enc 16 ex_E (firstn 16 ex_iv) ex_msg) /\
+  option_map data (decrypt 8 ex_E ex_iv (mkst (cfb_enc 8 ex_E (firstn 8 ex_iv) ex_msg) ex_scratch)) = Some ex_msg /\
+  option_map data (decrypt 16 ex_E ex_iv (mkst (cfb_enc 16 ex_E (firstn 16 ex_iv) ex_msg) ex_scratch)) = Some ex_msg /\
+  cfb_enc 8 ex_E (firstn 8 ex_iv) ex_msg <> ex_msg /\
+  cr_ok 16 (mkcr ex_scratch ex_scratch).
+Proof.
+  split; [left; reflexivity|]. split; [right; reflexivity|].
+  repeat split; try (vm_compute; reflexivity); try (vm_compute; discriminate);
+    try (vm_compute; repeat constructor).
+Qed.
